@@ -215,7 +215,8 @@ fn catalogue_values() -> &'static Vec<(&'static str, simplesl::variable::Variabl
     V.get_or_init(|| {
         let mut out: Vec<(&'static str, simplesl::variable::Variable, Ty)> = vec![];
         // (beyond the catalogue: values whose types differ from catalogue types in a component only)
-        const MORE: [&str; 18] = [
+        const MORE: [&str; 24] = [
+            "[[], [1]]", "[[1], [1, \"s\"]]", "[struct{a := 1, b := 2}, struct{a := 3}]", "[(1, []), (2, [\"s\"])]", "[[1, 2], [2.5]]", "[mut 1, mut 2.5]",
             "struct{a := \"s\"}", "struct{a := 2.5}", "struct{a := 1, b := 2}", "struct{b := 1}", "struct{a := [1]}", "struct{a := 1, c := 2}", "struct{b := 1, c := 2, d := 3}", "[1, \"s\"]", "[2.5, true]", "[1, 2.5]", "[[1], [\"s\"]]",
             "(1, \"s\")", "(1, 2, 3)", "(2.5, 1)", "mut int|string 1", "mut float|bool true", "(x: int) -> int { return x; }", "(x: string) -> int { return 1; }",
         ];
@@ -251,6 +252,31 @@ fn check_membership(case: &Json, stats: &mut Stats) -> Verdict {
             return Verdict::Discard("value text outside the catalogue");
         };
         expected.push(json!(if crate::ty::not_inhabits(v, &t, 0).is_none() { 1 } else { 0 }));
+    }
+    if form == 7 {
+        // the host API admits a value for a parameter of type T exactly when the value belongs to T
+        let program = format!("g := (x: {tt}) -> int {{ return 1; }}; g");
+        let g = match crate::exec::run_program(&program, false).outcome {
+            run::Outcome::Value(simplesl::variable::Variable::Function(g)) => g,
+            _ => return Verdict::Discard("parameter type not accepted"),
+        };
+        stats.label("membership: host call admission");
+        for (text, want) in texts.iter().zip(&expected) {
+            let Some((_, v, _)) = catalogue_values().iter().find(|(x, ..)| x == text) else { continue };
+            stats.eval();
+            let admitted = match run::guarded(|| g.clone().create_call(vec![v.clone()])) {
+                Ok(r) => r.is_ok(),
+                Err(c) => return fail(format!("C10:membership:form7:{}", c.sig()), format!("create_call of `{program}` with {text} panicked")),
+            };
+            if json!(if admitted { 1 } else { 0 }) != *want {
+                return fail(
+                    "C10:membership:form7",
+                    format!("`{program}` called through the host API with {text}: {} although the value {} {tt}", if admitted { "admitted" } else { "refused" }, if *want == json!(1) { "belongs to" } else { "does not belong to" }),
+                );
+            }
+        }
+        stats.nontrivial(&format!("{program} <- {texts:?}"));
+        return Verdict::Pass;
     }
     let body = match form {
         0 => format!("if v: {tt} = x {{ return 1; }} return 0;"),
@@ -373,7 +399,7 @@ fn cell_of(t: &str) -> String {
 
 fn membership_cases() -> Vec<Json> {
     use crate::genr::matrix::CATALOGUE;
-    let extra = ["struct{}", "struct{a: int}", "struct{b: int}", "struct{a: float}", "struct{a: int, b: int}", "()->!", "()->int", "()->float", "(int)->int", "[any]", "[!]", "(any, any)", "(int, int)", "(int, int, int)", "mut any", "!"];
+    let extra = ["[[string]]", "[[int]]", "[[]]", "[struct{a: int, b: int}]", "[struct{a: int}]", "[[int]|[float]]", "[(int, [])]", "[any]|string", "struct{a: int}|int", "struct{}", "struct{a: int}", "struct{b: int}", "struct{a: float}", "struct{a: int, b: int}", "()->!", "()->int", "()->float", "(int)->int", "[any]", "[!]", "(any, any)", "(int, int)", "(int, int, int)", "mut any", "!"];
     let tested: Vec<&str> = CATALOGUE.iter().map(|o| o.ty).chain(extra).collect();
     let mut cases = vec![];
     let declared: Vec<&str> = CATALOGUE.iter().map(|o| o.ty).chain(["struct{}", "struct{a: int}", "()->any", "[any]", "(any, any)"]).collect();
@@ -430,6 +456,9 @@ fn membership_cases() -> Vec<Json> {
             cases.push(json!({"kind": "membership", "s": s, "t": t, "values": values, "form": 4}));
             cases.push(json!({"kind": "membership", "s": s, "t": t, "values": values, "form": 5}));
             cases.push(json!({"kind": "membership", "s": s, "t": t, "values": values, "form": 6}));
+            if k % 4 == 0 {
+                cases.push(json!({"kind": "membership", "s": "any", "t": t, "values": values, "form": 7}));
+            }
             cases.push(json!({"kind": "membership", "s": s, "t": t, "values": turned, "form": (k + j + 1) % 2}));
         }
     }
